@@ -1,0 +1,83 @@
+//go:build verif
+
+package gojq
+
+// Verification hook for property C01 (reference semantics coq/sem). This file is
+// compiled only with the build tag "verif"; it only classifies the unexported
+// error types of error.go by their Go type (message texts are not observables).
+
+// VerifErrorClass names the class of an error emitted by an iterator. The names
+// are the ones of coq/sem/Natives.v errclass_name.
+func VerifErrorClass(err error) string {
+	switch err.(type) {
+	case *expectedObjectError:
+		return "expectedObject"
+	case *expectedArrayError:
+		return "expectedArray"
+	case *iteratorError:
+		return "iterator"
+	case *arrayIndexNegativeError:
+		return "arrayIndexNegative"
+	case *arrayIndexTooLargeError:
+		return "arrayIndexTooLarge"
+	case *repeatStringTooLargeError:
+		return "repeatStringTooLarge"
+	case *objectKeyNotStringError:
+		return "objectKeyNotString"
+	case *arrayIndexNotNumberError:
+		return "arrayIndexNotNumber"
+	case *stringIndexNotNumberError:
+		return "stringIndexNotNumber"
+	case *expectedStartEndError:
+		return "expectedStartEnd"
+	case *func0TypeError:
+		return "func0Type"
+	case *func1TypeError:
+		return "func1Type"
+	case *func2TypeError:
+		return "func2Type"
+	case *func0WrapError:
+		return "func0Wrap"
+	case *func1WrapError:
+		return "func1Wrap"
+	case *func2WrapError:
+		return "func2Wrap"
+	case *exitCodeError:
+		return "user"
+	case *HaltError:
+		return "halt"
+	case *flattenDepthError:
+		return "flattenDepth"
+	case *unaryTypeError:
+		return "unaryType"
+	case *binopTypeError:
+		return "binopType"
+	case *zeroDivisionError:
+		return "zeroDivision"
+	case *zeroModuloError:
+		return "zeroModulo"
+	case *formatNotFoundError:
+		return "formatNotFound"
+	case *formatRowError:
+		return "formatRow"
+	case *invalidPathError:
+		return "invalidPath"
+	case *invalidPathIterError:
+		return "invalidPathIter"
+	case *breakError:
+		return "break"
+	case *tryEndError:
+		return "tryEnd"
+	case *timeArrayError:
+		return "timeArray"
+	case *lengthMismatchError:
+		return "lengthMismatch"
+	case *inputNotAllowedError:
+		return "inputNotAllowed"
+	case *funcNotFoundError:
+		return "funcNotFound"
+	case *variableNotFoundError:
+		return "variableNotFound"
+	}
+	return "plain" // errors.New / fmt.Errorf and anything else
+}
